@@ -3,6 +3,7 @@ import Driver.DeployId
 import Driver.Engine
 import Driver.Policy
 import Driver.Handlers
+import Driver.Migrate
 
 def main (args : List String) : IO UInt32 := do
   let stdin ← IO.getStdin
@@ -11,4 +12,5 @@ def main (args : List String) : IO UInt32 := do
   | ["engine"] => Drv.loop stdin Drv.Engine.step {}; return 0
   | ["policy"] => Drv.loop stdin Drv.Policy.step (); return 0
   | ["handlers"] => Drv.loop stdin Drv.Handlers.step (); return 0
+  | ["migrate"] => Drv.loop stdin Drv.Migrate.step Migrate.fresh; return 0
   | _ => IO.eprintln "usage: wfdriver <model>"; return 2
